@@ -1689,7 +1689,8 @@ class ContractionTree:
                     tree.info[node].pop(k, None)
 
         tree.already_optimized.clear()
-        tree.contraction_cores.clear()
+        # the index order of nodes above any modified node is now stale too
+        tree.reset_contraction_indices()
 
         return tree
 
@@ -1736,7 +1737,8 @@ class ContractionTree:
 
         # reset caches
         tree.already_optimized.clear()
-        tree.contraction_cores.clear()
+        # the index order of nodes above any re-created node is now stale too
+        tree.reset_contraction_indices()
 
         return tree
 
@@ -1956,8 +1958,10 @@ class ContractionTree:
             if progbar:
                 pbar.close()
 
-        # invalidate any compiled contractions
-        tree.contraction_cores.clear()
+        # invalidate any compiled contractions, and the explicit index orders
+        # and contraction recipes: those of the nodes above a re-created
+        # subtree refer to the index order of the subtree that was removed
+        tree.reset_contraction_indices()
 
         return tree
 
